@@ -127,7 +127,10 @@ def stop (r : RState) : RState × List TermOp :=
   let (r', ops) := flush r
   (r'.repaint, ops ++ [.el2, .cr])
 
-def kill (r : RState) : RState × List TermOp := (r, [.el2, .cr])
+/-- `kill()`: no final flush; the cursor line is erased and, as in `stop`, the line cache is
+invalidated (the erased line is no longer on screen: if Run's own `stop` still paints the final view
+after a Kill that lost the race to a quit, it must not skip that line as unchanged) -/
+def kill (r : RState) : RState × List TermOp := (r.repaint, [.el2, .cr])
 
 inductive ROp where
   | size (w h : Nat)        -- handleMessages(WindowSizeMsg)
